@@ -1,7 +1,7 @@
 (* C15 — parts of the full statement that are false of the (faithful) model. *)
 From Coq Require Import String List Bool ZArith Permutation.
 Import ListNotations.
-Require Import V.Lib.PyStr V.Lib.JTree V.Det.Model V.Det.Proofs.
+Require Import V.Lib.PyStr V.Lib.JTree V.Det.Model V.Det.Proofs V.Det.Refs.
 Open Scope string_scope.
 Open Scope list_scope.
 
@@ -42,3 +42,32 @@ Proof.
   split; [vm_compute; discriminate|reflexivity].
 Qed.
 Print Assumptions C15_dedup_first_refuted.
+
+(* F15b (repaired by a fix: commit): the pinned code rewrote the arguments of a DSL component with
+   one str.replace per output reference, in the iteration order of a set.  Witness (confirmed on the
+   real code, hash seeds 0/1/4 vs 2/3/5): the step c of the entry workflow is given
+   message = <a>:ref and other = <b/x<entry-instance/a>>:ref (a file of b whose path has the
+   components "x<entry-instance" and "a>"); the reference strings are made absolute, and the data
+   reference that replaces the second one contains the first one.  The two orders of the two element
+   set give two different argument strings; the reference strings are not separated (so the
+   hypothesis of C15_replace_separated cannot be dropped); the sorted order gives the first result. *)
+Definition s5_refs : list (string * string) :=
+  [("<entry-instance/a>:ref", "stage0.a:ref");
+   ("<entry-instance/b/x<entry-instance/a>>:ref", "stage0.b/x<entry-instance/a>:ref")].
+Definition s5_ps : list AM.piece :=
+  [AM.Tok "<entry-instance/a>:ref"; AM.Lit " "; AM.Tok "<entry-instance/b/x<entry-instance/a>>:ref"].
+
+Theorem C15_replace_set_order_refuted :
+  exists refs ps piS,
+    perm_oracle piS /\
+    replace_refs id_oracle refs (AM.flatten ps) = "stage0.a:ref stage0.b/x<entry-instance/a>:ref" /\
+    replace_refs piS refs (AM.flatten ps) = "stage0.a:ref stage0.b/xstage0.a:ref" /\
+    replace_refs id_oracle refs (AM.flatten ps) <> replace_refs piS refs (AM.flatten ps) /\
+    refs_separatedb refs ps = false /\
+    replace_refs_sorted piS refs (AM.flatten ps) = replace_refs id_oracle refs (AM.flatten ps).
+Proof.
+  exists s5_refs, s5_ps, (@rev string). split; [exact rev_perm_oracle|].
+  split; [vm_compute; reflexivity|]. split; [vm_compute; reflexivity|].
+  split; [vm_compute; discriminate|]. split; vm_compute; reflexivity.
+Qed.
+Print Assumptions C15_replace_set_order_refuted.
